@@ -916,6 +916,92 @@ Proof.
   eapply (infer_arith_sound s (f_equal range) z_eq f_equal_sound); eauto.
 Qed.
 
+(* --------------------------------------------------------------------------- Gather *)
+Lemma gather_vals_sound s vals vd :
+  all2 (expr_cons s) vals vd = true ->
+  forall idxs l d,
+    gather_vals vals idxs = Some l ->
+    omapz (fun i => match resolve_index (zlen vals) i with
+                    | Some k => nth_error vd (Z.to_nat k)
+                    | None => None
+                    end) idxs = Some d ->
+    all2 (claim s) l d = true /\ length l = length idxs.
+Proof.
+  intros A. induction idxs as [|i idxs IH]; intros l d G O; cbn [gather_vals omapz] in *.
+  - inv G. inv O. split; reflexivity.
+  - destruct (resolve_index (zlen vals) i) as [k|]; [|discriminate].
+    destruct (nth_error vals (Z.to_nat k)) as [e|] eqn:Ee; [|discriminate].
+    destruct (gather_vals vals idxs) as [rl|] eqn:Er; [|discriminate]. inv G.
+    destruct (nth_error vd (Z.to_nat k)) as [v|] eqn:Ev; [|discriminate].
+    destruct (omapz _ idxs) as [rd|] eqn:Ed; [|discriminate]. inv O.
+    destruct (all2_nth _ _ _ _ _ A Ee) as (v' & Ev' & Hc). rewrite Ev in Ev'. inv Ev'.
+    destruct (IH rl rd eq_refl eq_refl) as [I1 I2].
+    cbn [all2 length]. rewrite (claim_of_cons _ _ _ Hc), I1, I2. split; reflexivity.
+Qed.
+
+Lemma to_constant_cons s t c isvec idxs :
+  consistent s t c = true -> to_constant t = Some (isvec, idxs) ->
+  c_data c = Some idxs /\ (if isvec then c_shape c = [zlen idxs] else (c_shape c = [] /\ exists z, idxs = [z])).
+Proof.
+  intros C H. destruct t; cbn [to_constant] in H; try discriminate.
+  - destruct e; try discriminate. inv H. cbn [consistent] in C.
+    destruct (c_shape c); [|discriminate]. destruct (c_data c) as [[|v [|? ?]]|]; try discriminate.
+    apply expr_cons_value in C as [-> _]. split; [reflexivity|]. split; eauto.
+  - destruct (all_values l) as [zs|] eqn:E; [|discriminate]. inv H. cbn [consistent] in C.
+    destruct (c_shape c) as [|n [|? ?]]; try discriminate. destruct (c_data c) as [vs|]; [|discriminate].
+    apply andb_prop in C as [C C3]. apply andb_prop in C as [C1 _]. apply Z.eqb_eq in C1. subst n.
+    rewrite (all_values_cons _ _ _ _ E C3). split; [reflexivity|]. f_equal. eapply zlen_eq; eauto.
+Qed.
+
+Theorem infer_sound_Gather v axis : sound_for v (OGather axis) no_extra.
+Proof.
+  intros s ins cins outs couts A I E _. cbn [infer_with] in I. unfold infer_gather in I.
+  destruct (input ins 0) as [td|] eqn:E0; [|discriminate].
+  destruct (input ins 1) as [ti|] eqn:E1; [|discriminate].
+  destruct (cons_input _ _ _ _ _ A E0) as (cd & Ecd & Cd). destruct (cons_input _ _ _ _ _ A E1) as (ci & Eci & Ci).
+  cbn [exec_ref] in E. rewrite Ecd, Eci in E. unfold exec_gather in E.
+  destruct (t_shape td) as [ddims|] eqn:Td; [|inv I;
+    repeat match type of E with match ?x with _ => _ end = _ => destruct x; try discriminate end; inv E; reflexivity].
+  destruct (t_shape_cons _ _ _ _ Cd Td) as [Hd _].
+  rewrite <- (all2_length _ _ _ Hd) in E.
+  destruct (resolve_axis (length ddims) axis) as [ax|] eqn:Eax; [|discriminate].
+  (* the shape path, used by both branches *)
+  assert (SH : forall idims c, t_shape ti = Some idims ->
+             c_shape c = firstn ax (c_shape cd) ++ c_shape ci ++ skipn (S ax) (c_shape cd) ->
+             claims s (TShape (firstn ax ddims ++ idims ++ skipn (S ax) ddims)) c = true).
+  { intros idims c Ti Hc. destruct (t_shape_cons _ _ _ _ Ci Ti) as [Hi _]. cbn [claims]. rewrite Hc.
+    apply all2_claim_of_cons. apply all2_app; [apply all2_firstn, Hd|]. apply all2_app; [exact Hi|apply all2_skipn, Hd]. }
+  assert (OUT : exists c, couts = [c] /\ c_shape c = firstn ax (c_shape cd) ++ c_shape ci ++ skipn (S ax) (c_shape cd)).
+  { repeat match type of E with match ?x with _ => _ end = _ => destruct x; try discriminate end; inv E; eexists; split; reflexivity. }
+  destruct (t_values td) as [vals|] eqn:Tv.
+  - destruct (to_constant ti) as [[isvec idxs]|] eqn:Tc.
+    + (* values of a vector gathered by constant indices *)
+      destruct (values_cons _ _ _ _ Cd Tv) as (vd & Dd & Hv & [[Sd (e & -> & ->)]|[Sd ->]]).
+      { (* scalar data: the axis cannot be resolved *) cbn [t_shape] in Td. inv Td. cbn in Eax. unfold resolve_axis, resolve_index in Eax. cbn in Eax.
+        destruct ((axis <? 0) || (0 <=? axis)) eqn:X; [discriminate|]. apply orb_false_iff in X as [X1 X2].
+        apply Z.ltb_ge in X1. apply Z.leb_gt in X2. lia. }
+      cbn [t_shape] in Td. inv Td. cbn [length] in Eax.
+      assert (ax = 0%nat).
+      { unfold resolve_axis, resolve_index in Eax. change (Z.min (Z.of_nat 1) i32_max) with 1 in Eax.
+        destruct ((axis <? - (1)) || (1 <=? axis)) eqn:Y; [discriminate|]. apply orb_false_iff in Y as [Y1 Y2].
+        apply Z.ltb_ge in Y1. apply Z.leb_gt in Y2.
+        destruct (0 <=? axis) eqn:X; inv Eax; [apply Z.leb_le in X|apply Z.leb_gt in X]; lia. }
+      subst ax. destruct (to_constant_cons _ _ _ _ _ Ci Tc) as [Di Si].
+      rewrite Dd, Di, Sd in E. cbn [firstn skipn app] in E.
+      destruct (gather_vals vals idxs) as [l|] eqn:G; [|discriminate].
+      destruct (omapz _ idxs) as [d|] eqn:O; [|discriminate]. inv E.
+      destruct (gather_vals_sound s vals vd Hv idxs l d G O) as [H1 H2].
+      destruct isvec.
+      * inv I. apply claims_all_one. cbn [claims c_shape c_data]. rewrite app_nil_r, Si. unfold zlen. rewrite H2, Z.eqb_refl. exact H1.
+      * destruct Si as [Si (z & ->)]. destruct l as [|e [|? ?]]; try discriminate. inv I.
+        pose proof (all2_length _ _ _ H1) as L. destruct d as [|dv [|? ?]]; try discriminate. cbn [all2] in H1.
+        apply claims_all_one. cbn [claims c_shape c_data]. rewrite app_nil_r, Si. apply andb_prop in H1 as [H1 _]. exact H1.
+    + destruct OUT as (c & -> & Hc). destruct (t_shape ti) as [idims|] eqn:Ti; inv I; [|reflexivity].
+      apply claims_all_one. eapply SH; eauto.
+  - destruct OUT as (c & -> & Hc). destruct (t_shape ti) as [idims|] eqn:Ti; inv I; [|reflexivity].
+    apply claims_all_one. eapply SH; eauto.
+Qed.
+
 (* ------------------------------------------------------------ the check's oracle *)
 Lemma prop_ok_reject c :
   prop_ok c = false ->
